@@ -45,27 +45,28 @@ Definition generic_error (shown : str) : exn :=
 
 Definition none_exn : exn := mkExn [] false [].     (* placeholder for paths real programs never take *)
 
-(* ---- the programs of the code as it stands (pinned tree); Gen/Protocol.v must regenerate exactly these ---- *)
-Definition create_prog_faithful : create_program :=
+(* ---- the programs of the code as it stands; Gen/Protocol.v must regenerate exactly these ---- *)
+Definition create_prog_code : create_program :=
   mkCreate BLogCreated [LcReset; LcVersion; LcResponse; LcDefaults; LcSetCreated true].
 
-Definition call_prog_faithful : call_program :=
-  mkProg (BAnd BExpectGiven (BOr BInferring (BNot BHasAnswers)))
-         [CInfer; CCreateLog; CLogInferred; CSchema Cfg; CPost Cfg Cfg; CSetInferring true]
-         [CEnsureText; CCreateLog; CSetLogCreated false; CCheck]
-         [].
-
-(* ---- the repaired protocol proposed with the C11 findings: validate into a local before storing anything,
-        and clear log_created on every exit ---- *)
+(* ItemGrader.__call__ since the fixes 6d40b94 / a320343: validate into a local before storing anything, create the
+   log only after validation, clear log_created on every exit of the superclass call *)
 Definition call_prog_repaired : call_program :=
   mkProg (BAnd BExpectGiven (BOr BInferring (BNot BHasAnswers)))
          [CInfer; CSchema Tmp; CPost Tmp Tmp; CMove Tmp Cfg; CSetInferring true; CCreateLog; CLogInferred]
          [CEnsureText; CCreateLog; CSetLogCreated false; CCheck]
          [CSetLogCreated false].
 
-(* the program the implementation currently has (Bridge/Protocol.v ties Gen to these two names) *)
-Definition call_prog : call_program := call_prog_faithful.
-Definition create_prog : create_program := create_prog_faithful.
+(* the protocol as it was BEFORE those fixes (kept as a regression reference: the corpus witnesses tell it apart) *)
+Definition call_prog_before_fix : call_program :=
+  mkProg (BAnd BExpectGiven (BOr BInferring (BNot BHasAnswers)))
+         [CInfer; CCreateLog; CLogInferred; CSchema Cfg; CPost Cfg Cfg; CSetInferring true]
+         [CEnsureText; CCreateLog; CSetLogCreated false; CCheck]
+         [].
+
+(* the programs the implementation currently has (Bridge/Protocol.v ties Gen to these names) *)
+Definition call_prog : call_program := call_prog_repaired.
+Definition create_prog : create_program := create_prog_code.
 
 (* ---------------------------------------------------------------------------------------------- *)
 (* semantics                                                                                      *)
@@ -306,8 +307,8 @@ Arguments event : clear implicits.
 (* ---------------------------------------------------------------------------------------------- *)
 (* MathArray.enable_negative_powers (a context manager over a class attribute)                    *)
 (* ---------------------------------------------------------------------------------------------- *)
-Definition cm_prog_faithful : cm_program := mkCm [SwSet SvArg] true [SwSet SvDefault].
-Definition cm_prog : cm_program := cm_prog_faithful.
+Definition cm_prog_code : cm_program := mkCm [SwSet SvArg] true [SwSet SvDefault].
+Definition cm_prog : cm_program := cm_prog_code.
 
 
 Definition exec_sw (arg : bool) (c : swcmd) (w : switch) : switch :=
